@@ -249,6 +249,7 @@ type c07Case struct {
 	Entries []string  `json:"entries"`
 	Damaged int       `json:"damaged_entry"`
 	Damage  c07Damage `json:"damage"`
+	CRLF    bool      `json:"crlf"`
 	Text    string    `json:"text"`
 	Orig    string    `json:"original"`
 }
@@ -276,8 +277,9 @@ func checkC07(c *core.Ctx) {
 	s.Initialize(wire.InitOpts{Options: `{"diagnostics":{"undeclaredAccounts":false,"undeclaredCommodities":false}}`})
 
 	blank := 1
+	le := "\n"
 	run := func(kinds []string, e int, only *c07Damage) {
-		j := &gmodel.Journal{LineEnd: "\n", FinalNewline: true, Blank: blank}
+		j := &gmodel.Journal{LineEnd: le, FinalNewline: true, Blank: blank}
 		for _, k := range kinds {
 			j.Entries = append(j.Entries, tpl[k])
 		}
@@ -312,16 +314,16 @@ func checkC07(c *core.Ctx) {
 			all := append([]string{}, rd.Lines[:first]...)
 			all = append(all, dl...)
 			all = append(all, rd.Lines[last+1:]...)
-			text := strings.Join(all, "\n") + "\n"
+			text := strings.Join(all, le) + le
 			damAST, damErrs := parser.Parse(text)
 			c.Res.Evaluations++
 			if len(damErrs) > 0 {
 				c.Res.Nontrivial++
 			}
-			cas := c07Case{Blank: blank, Entries: kinds, Damaged: e, Damage: d, Text: text, Orig: rd.Text}
+			cas := c07Case{Blank: blank, Entries: kinds, Damaged: e, Damage: d, CRLF: le != "\n", Text: text, Orig: rd.Text}
 			pos := []string{"first", "middle", "last"}[e]
 			viol := func(clause, class string, detail string) {
-				c.Violate(fmt.Sprintf("%s|%s|damaged %s entry (%s) by %s, %d blank lines between entries", clause, class, pos, kinds[e], d.class(), blank), clause, detail+"\n--- damaged text:\n"+text, cas)
+				c.Violate(fmt.Sprintf("%s|%s|damaged %s entry (%s) by %s, %d blank lines between entries%s", clause, class, pos, kinds[e], d.class(), blank, map[bool]string{false: "", true: ", CRLF"}[le != "\n"]), clause, detail+"\n--- damaged text:\n"+text, cas)
 			}
 			dFirst, dLast := first+1, first+len(dl) // 1-based lines of the damaged entry (may be empty)
 			// (a) syntax errors only on lines of the damaged entry
@@ -419,26 +421,32 @@ func checkC07(c *core.Ctx) {
 			return
 		}
 		blank = cs.Blank
+		if cs.CRLF {
+			le = "\r\n"
+		}
 		run(cs.Entries, cs.Damaged, &cs.Damage)
 		return
 	}
 	njournals := 0
-	for _, blank = range []int{1, 0} {
-		for _, dk := range names {
-			for _, a := range neighbours {
-				for _, b := range neighbours {
-					run([]string{a, dk, b}, 1, nil)
-					njournals++
+	for _, le = range []string{"\n", "\r\n"} {
+		for _, blank = range []int{1, 0} {
+			for _, dk := range names {
+				for _, a := range neighbours {
+					for _, b := range neighbours {
+						run([]string{a, dk, b}, 1, nil)
+						njournals++
+					}
+					if c.Expired() {
+						return
+					}
+					run([]string{dk, a, "tx-balanced"}, 0, nil)
+					run([]string{"tx-balanced", a, dk}, 2, nil)
+					njournals += 2
 				}
-				if c.Expired() {
-					return
-				}
-				run([]string{dk, a, "tx-balanced"}, 0, nil)
-				run([]string{"tx-balanced", a, dk}, 2, nil)
-				njournals += 2
 			}
 		}
 	}
+	c.Bound("line endings", "LF and CRLF")
 	c.Bound("journals", fmt.Sprintf("%d (journal, damaged entry) pairs: %d entry templates damaged, neighbours from %d templates", njournals, len(names), len(neighbours)))
 	c.Sample(map[string]any{"entries": []string{"tx", "commodity-fmt", "account"}, "damage": c07Damage{Kind: "insert", Line: 1, Col: 11, Arg: "\""}})
 }
